@@ -367,6 +367,7 @@ func (e *Engine) Exec(tx Tx) *Report {
 	e.decodeEvents(&tx, rep)
 	e.checkExactlyOnce(&tx, rep)
 	e.checkReplacementKeeps(&tx, rep)
+	e.checkSuccessImplies(&tx, rep)
 	e.checkDeps(&tx, rep, expDeps, fallible)
 	if txExp != DontCare {
 		contentDC := false
@@ -1196,5 +1197,46 @@ func (e *Engine) checkReplacementKeeps(tx *Tx, rep *Report) {
 		case ob.Version != nb.Version:
 			bad("body-version")
 		}
+	}
+}
+
+// checkSuccessImplies: C14, independent of the model's verdict (also for don't-care outcomes): a deposit that
+// reports success made a transfer and a burn that both returned ok and emitted a module-sent MessageSent per
+// deposit; a successful receive of a module-addressed message made a mint that returned ok.
+func (e *Engine) checkSuccessImplies(tx *Tx, rep *Report) {
+	deposits, moduleReceives := 0, 0
+	for _, m := range tx.Msgs {
+		switch x := m.(type) {
+		case *ct.MsgDepositForBurn, *ct.MsgDepositForBurnWithCaller:
+			deposits++
+		case *ct.MsgReceiveMessage:
+			if d, err := ref.DecodeMessage(x.Message); err == nil && bytes.Equal(d.Recipient, modulePadded) {
+				moduleReceives++
+			}
+		}
+	}
+	if deposits == 0 && moduleReceives == 0 {
+		return
+	}
+	okCalls := map[string]int{}
+	for _, d := range rep.Deps {
+		if d.Seq >= 0 && d.Err == "" {
+			okCalls[d.Method]++
+		}
+	}
+	moduleSent := 0
+	for _, raw := range rep.Sent {
+		if d, err := ref.DecodeMessage(raw); err == nil && bytes.Equal(d.Sender, modulePadded) {
+			moduleSent++
+		}
+	}
+	e.Rc.Cov.Assert("C14.success-implies-effects")
+	if okCalls["Transfer"] < deposits || okCalls["Burn"] < deposits || moduleSent < deposits {
+		e.viol([]string{"C14", "C05"}, "all-or-nothing", "C14:deposit-success-without-effects",
+			fmt.Sprintf("%d deposit(s) reported success with %d ok transfers, %d ok burns and %d module-sent MessageSent events", deposits, okCalls["Transfer"], okCalls["Burn"], moduleSent), e.caseOf(tx, ""))
+	}
+	if okCalls["Mint"] < moduleReceives {
+		e.viol([]string{"C14", "C04"}, "all-or-nothing", "C14:receive-success-without-mint",
+			fmt.Sprintf("%d module-addressed receive(s) reported success with %d ok mints", moduleReceives, okCalls["Mint"]), e.caseOf(tx, ""))
 	}
 }
